@@ -4,6 +4,7 @@ CONSTANTS
   Masks = {1, 128, 255}
   KSValues = {0}
   Keys = {"k1", "k2"}
+  SnapKeeps = TRUE
   Replicas = {"a", "b"}
   Lens = {0}
   MKLens = {0}
@@ -18,6 +19,8 @@ CONSTANTS
   MaxPause = 1
   MaxSub = 2
   MaxLead = 2
+  MaxSnap = 0
+  MaxInstall = 1
   PubClasses = {"empty", "short", "long"}
   Hows = {"api", "b2b", "gap"}
   TamperRegs = {"KS", "WK", "NONCE", "CT", "TAG"}
